@@ -66,7 +66,7 @@ class PyFileSearcher(AbstractSearcher):
 
             try:
                 fp = open(f, 'rb')
-                pyData = fp.read(8)
+                pyData = fp.read(12)
                 fp.close()
 
             except IOError:
@@ -74,6 +74,12 @@ class PyFileSearcher(AbstractSearcher):
                                                searcher=self)
             if pyData[:4] == PY_MAGIC_NUMBER:
                 pyData = pyData[4:]
+                if sys.version_info[:2] >= (3, 7):
+                    # PEP 552: a flags word precedes the source time stamp
+                    if len(pyData) < 8 or struct.unpack('<L', pyData[:4])[0] & 1:
+                        debug.logger & debug.flagSearcher and debug.logger('no time stamp in %s' % f)
+                        continue
+                    pyData = pyData[4:]
                 pyTime = struct.unpack('<L', pyData[:4])[0]
                 debug.logger & debug.flagSearcher and debug.logger(
                     'found %s, mtime %s' % (f, time.strftime("%a, %d %b %Y %H:%M:%S GMT", time.gmtime(pyTime))))
